@@ -43,3 +43,38 @@ package parser
 //@   ensures [eof;C04] (n != nil) == ctx.Reader().IsEOF(pos) && (n != nil ==> same(n, EndNode(pos))) && (n == nil) == (err != nil)
 //@   ensures [errpos;C06] err != nil ==> err.Pos() == pos
 //@   ghost_return when err != nil && err.Pos() > parsley.GhostMaxFail :: parsley.GhostMaxFail = err.Pos()
+
+//@ -- ------------------------------------------------------------------ ReturnError / Name
+//@ -- the wrapped parser is called once; a not-found error at pos (or no result at all) is replaced by the custom error at pos
+//@ closure ReturnError$1(ctx *parsley.Context, lrc data.IntMap, pos parsley.Pos) (n parsley.Node, cp data.IntSet, err parsley.Error)
+//@   captures (p parsley.Parser, customErr error)
+//@   requires p != nil && customErr != nil && !typeis[parsley.Error](customErr)
+//@   include parsley.Parser.Parse
+//@   ensures [once;C01,C02] ncalls() == 1 && callarg[*parsley.Context](1, 1) == ctx && same(callarg[data.IntMap](1, 2), lrc) && callarg[parsley.Pos](1, 3) == pos
+//@   ensures [node;C01] same(cp, callres[data.IntSet](1, 1)) && (callres[parsley.Error](1, 2) == nil ==> same(n, callres[parsley.Node](1, 0)))
+//@   ensures [named;C06] callres[parsley.Error](1, 2) != nil && callres[parsley.Error](1, 2).Pos() == pos && parsley.IsNotFound(callres[parsley.Error](1, 2)) ==> err != nil && err.Pos() == pos && same(err.Cause(), customErr)
+//@   ensures [kept;C06] callres[parsley.Error](1, 2) != nil && !(callres[parsley.Error](1, 2).Pos() == pos && parsley.IsNotFound(callres[parsley.Error](1, 2))) ==> same(err, callres[parsley.Error](1, 2))
+//@   ensures [never-neither;C04] n != nil || err != nil
+//@   ghost_return when err != nil && err.Pos() > parsley.GhostMaxFail :: parsley.GhostMaxFail = err.Pos()
+
+//@ func ReturnError(p parsley.Parser, customErr error) (r Func)
+//@   requires p != nil && customErr != nil && !typeis[parsley.Error](customErr)
+//@   ensures  r != nil
+//@   assigns  nothing
+//@ func (f Func) Name(name string) (r Func)
+//@   requires f != nil
+//@   ensures  r != nil
+//@   assigns  nothing
+//@ func Empty() (r Func)
+//@   ensures  r != nil
+//@   assigns  nothing
+//@ func End() (r Func)
+//@   ensures  r != nil
+//@   assigns  nothing
+//@ func (e EndNode) Value(userCtx interface{}) (v interface{}, err parsley.Error)
+//@   props C13
+//@   ensures  v == nil && err == nil
+//@   assigns  nothing
+//@ func (e EndNode) SetReaderPos(f func(parsley.Pos) parsley.Pos)
+//@   props C07
+//@   assigns  nothing
